@@ -2,7 +2,8 @@
 
 No source hooks: preemption points are the "call" events `sys.settrace` delivers for code objects
 whose file lies under the rtflite package directory (every entry into a library function, method,
-property accessor, lambda, comprehension-free: ~800 per small encode).  Exactly one thread holds the
+property accessor, lambda, comprehension-free: ~800 per small encode); on CPython ≥ 3.12 the same
+events are taken from `sys.monitoring` (see "observing library calls" below).  Exactly one thread holds the
 token at any time; all others are parked on a `threading.Event` inside their trace function, i.e.
 *before* the library call they were about to make executes.
 
@@ -108,7 +109,7 @@ def install_wrappers():
             if rec is None:
                 return o_get(self, color, used_colors, *a, **k)
             entry = [_tid(), "lookup", [color, None if used_colors is None else list(used_colors)], None]
-            if sys.gettrace() is None or _PATCHED.get("lookup_code") is None:
+            if not _observed() or _PATCHED.get("lookup_code") is None:
                 rec.add(entry)
             else:
                 _tls.pending = entry          # positioned by the trace function after any parking
@@ -165,10 +166,93 @@ def pkg_dir() -> str:
     return os.path.dirname(os.path.abspath(rtflite.__file__)) + os.sep
 
 
+# ---------------------------------------------------------------- observing library calls
+#
+# Two interchangeable observers deliver the same events ("a code object of the rtflite package is entered or a
+# generator of it is resumed" = the 'call' events of sys.settrace):
+#   * mode "settrace": `sys.settrace` in every scheduled thread.  The trace function is called for EVERY Python call
+#     of the thread (pydantic, polars wrappers, copy.deepcopy …) and has to filter by file name.
+#   * mode "monitoring" (CPython ≥ 3.12): one `sys.monitoring` tool with PY_START / PY_RESUME / PY_THROW — the very
+#     events CPython's own settrace emulation turns into 'call'.  Code locations outside the package are switched off
+#     on first sight (`DISABLE`), so only library calls cost anything.  Callbacks run in the calling thread; threads
+#     that are not (or no longer) scheduled return at once.
+# The check runs every baseline document under both on every run (props/c15.py `_baseline_worker`) and confirms that
+# they see the same number of switch points and the shared accesses at the same call numbers; if not, or if no
+# monitoring tool id is free, everything runs under sys.settrace.  VERIF_SCHED_SETTRACE=1 forces the first mode.
+
+def default_mode() -> str:
+    if os.environ.get("VERIF_SCHED_SETTRACE") == "1" or not hasattr(sys, "monitoring"):
+        return "settrace"
+    return "monitoring"
+
+
+_MON = dict(tool=None, pkg=None)
+
+
+def _observed() -> bool:
+    return sys.gettrace() is not None or getattr(_tls, "sch", None) is not None
+
+
+def _mon_event(code, offset, *rest):
+    if not code.co_filename.startswith(_MON["pkg"]):
+        return None if rest else sys.monitoring.DISABLE       # (PY_THROW cannot be disabled)
+    sch = getattr(_tls, "sch", None)
+    if sch is None or _tls.quiet:
+        return None
+    sch._on_call(_tls.tid, code, None)
+    if code is _PATCHED.get("lookup_code"):
+        p = getattr(_tls, "pending", None)
+        if p is not None and _REC is not None:
+            _tls.pending = None
+            _REC.add(p)
+    return None
+
+
+def _mon_install(pkg):
+    if _MON["tool"] is not None:
+        return
+    mon = sys.monitoring
+    for tool in (mon.PROFILER_ID, 3, 4):
+        try:
+            mon.use_tool_id(tool, "rtfv-sched")
+        except ValueError:
+            continue
+        _MON["tool"] = tool
+        break
+    else:
+        raise RuntimeError("no free sys.monitoring tool id")
+    _MON["pkg"] = pkg
+    ev = mon.events
+    for e in (ev.PY_START, ev.PY_RESUME, ev.PY_THROW):
+        mon.register_callback(_MON["tool"], e, _mon_event)
+
+
+def _mon_events(on: bool):
+    mon = sys.monitoring
+    ev = mon.events
+    mon.set_events(_MON["tool"], (ev.PY_START | ev.PY_RESUME | ev.PY_THROW) if on else 0)
+
+
 class Scheduler:
-    def __init__(self, nthreads: int, segments, timeout: float = 60.0, pkg: str | None = None):
+    def __init__(self, nthreads: int, segments, timeout: float = 60.0, pkg: str | None = None,
+                 lazy_trace: bool = False, mode: str | None = None):
         self.n = nthreads
+        self.mode = mode or default_mode()
+        if self.mode == "monitoring":
+            try:
+                _mon_install(pkg or pkg_dir())
+            except Exception:  # noqa: BLE001   (all tool ids taken by a debugger / profiler / coverage run)
+                self.mode = "settrace"
         self.segments = [list(s) for s in segments]
+        # lazy_trace: a thread is traced only as long as the schedule can still park it, i.e. up to the start of its
+        # last segment with a finite budget; from then on it holds the token until it finishes, whether it is observed
+        # or not, so the trace function is removed (the run is the same interleaving at about half the cost; `counts`
+        # then stop at the last park and the shared-access log positions lookups at the wrapper instead of the tracer)
+        self.lazy = lazy_trace
+        self.last_finite = [-1] * nthreads
+        for k, sg in enumerate(self.segments):
+            if sg[1] is not None and sg[0] < nthreads:
+                self.last_finite[sg[0]] = k
         self.timeout = timeout
         self.pkg = pkg or pkg_dir()
         self.seg = -1
@@ -204,11 +288,21 @@ class Scheduler:
             self.broken = f"thread {tid} waited more than {self.timeout}s for the token"
             raise SchedulerTimeout(self.broken)
 
-    def _on_call(self, tid, frame):
+    def _unobserve(self):
+        if self.mode == "settrace":
+            sys.settrace(None)
+        else:
+            _tls.sch = None
+
+    def _on_call(self, tid, code, frame):
         while self.left[tid] is not None and self.left[tid] <= 0:
-            code = frame.f_code
+            if frame is None:                 # monitoring: the entered frame is the nearest one running `code`
+                frame = sys._getframe(1)
+                while frame is not None and frame.f_code is not code:
+                    frame = frame.f_back
+            line = frame.f_lineno if frame is not None else code.co_firstlineno
             self.parks.append([tid, self.counts[tid] + 1, code.co_name,
-                               code.co_filename[len(self.pkg):] + ":" + str(frame.f_lineno)])
+                               code.co_filename[len(self.pkg):] + ":" + str(line)])
             nxt = self._advance()
             if nxt == tid:
                 continue
@@ -219,6 +313,8 @@ class Scheduler:
         self.counts[tid] += 1
         if self.left[tid] is not None:
             self.left[tid] -= 1
+        elif self.lazy and self.seg >= self.last_finite[tid]:
+            self._unobserve()        # nothing can park this thread any more
 
     def _tracer(self, tid):
         pkg = self.pkg
@@ -226,7 +322,7 @@ class Scheduler:
 
         def tracer(frame, event, arg):
             if event == "call" and frame.f_code.co_filename.startswith(pkg) and not getattr(_tls, "quiet", False):
-                self._on_call(tid, frame)
+                self._on_call(tid, frame.f_code, frame)
                 if lookup_code is not None and frame.f_code is lookup_code:
                     p = getattr(_tls, "pending", None)
                     if p is not None and _REC is not None:
@@ -240,10 +336,15 @@ class Scheduler:
         _tls.tid = tid
         _tls.quiet = False
         _tls.pending = None
+        _tls.sch = None
         try:
             self._wait(tid)
             self.started[tid] = True
-            sys.settrace(self._tracer(tid))
+            if not (self.lazy and self.left[tid] is None and self.seg >= self.last_finite[tid]):
+                if self.mode == "settrace":
+                    sys.settrace(self._tracer(tid))
+                else:
+                    _tls.sch = self
             try:
                 self.results[tid] = ("ok", fn())
             except SchedulerTimeout:
@@ -251,7 +352,7 @@ class Scheduler:
             except BaseException as e:  # noqa: BLE001
                 self.results[tid] = ("error", type(e).__name__, str(e)[:300])
             finally:
-                sys.settrace(None)
+                self._unobserve()
         except SchedulerTimeout as e:
             self.results[tid] = ("timeout", str(e))
             return
@@ -264,14 +365,20 @@ class Scheduler:
         """fns: one zero-argument callable per thread. Returns list of ('ok', value)|('error', cls, msg)."""
         assert len(fns) == self.n
         threads = [threading.Thread(target=self._body, args=(i, f), daemon=True) for i, f in enumerate(fns)]
-        for t in threads:
-            t.start()
-        first = self._advance()
-        if first is not None:
-            self.ev[first].set()
-        deadline = time.time() + self.timeout + 5
-        for t in threads:
-            t.join(max(0.1, deadline - time.time()))
+        if self.mode == "monitoring":
+            _mon_events(True)
+        try:
+            for t in threads:
+                t.start()
+            first = self._advance()
+            if first is not None:
+                self.ev[first].set()
+            deadline = time.time() + self.timeout + 5
+            for t in threads:
+                t.join(max(0.1, deadline - time.time()))
+        finally:
+            if self.mode == "monitoring":
+                _mon_events(False)
         if any(t.is_alive() for t in threads) or self.broken:
             # release everybody so that daemon threads can unwind, then report
             for e in self.ev:
@@ -280,13 +387,13 @@ class Scheduler:
         return self.results
 
 
-def run_scheduled(fns, segments, timeout=60.0):
+def run_scheduled(fns, segments, timeout=60.0, lazy_trace=False, mode=None):
     """Run callables as threads under the schedule, recording shared-state events.
-    → dict(results, log, counts, parks)"""
+    → dict(results, log, counts, parks).  lazy_trace: see Scheduler (counts are then not the totals)."""
     global _REC
     install_wrappers()
     rec = Recorder()
-    s = Scheduler(len(fns), segments, timeout)
+    s = Scheduler(len(fns), segments, timeout, lazy_trace=lazy_trace, mode=mode)
     rec.sched = s
     old_switch = sys.getswitchinterval()
     _REC = rec
@@ -295,4 +402,4 @@ def run_scheduled(fns, segments, timeout=60.0):
     finally:
         _REC = None
         sys.setswitchinterval(old_switch)
-    return dict(results=results, log=rec.log, counts=s.counts, parks=s.parks)
+    return dict(results=results, log=rec.log, counts=s.counts, parks=s.parks, mode=s.mode)
